@@ -91,6 +91,24 @@ impl<I: Object> Stream<I> {
         }
     }
 
+    /// Like `data`, but never through the stream cache.
+    ///
+    /// The cache is keyed by object number. While the cross-reference sections of a `/Prev` chain are collected,
+    /// several versions of one object number may be read (an update may write its cross-reference stream as a new
+    /// version of the previous one), so their data must not be looked up by number.
+    pub(crate) fn data_uncached(&self, resolve: &impl Resolve) -> Result<Arc<[u8]>> {
+        match self.inner_data {
+            StreamData::Generated(_) => self.data(resolve),
+            StreamData::Original(ref file_range, id) => {
+                let mut data = resolve.stream_data(id, file_range.clone())?;
+                for filter in &self.info.filters {
+                    data = t!(decode(&data, filter), filter).into();
+                }
+                Ok(data)
+            }
+        }
+    }
+
     pub fn len(&self) -> usize {
         match self.inner_data {
             StreamData::Generated(ref data) => data.len(),
